@@ -184,13 +184,23 @@ def op_line(op):
     return "eval %d %d" % (op[1], op[2])
 
 
-def op_lines(op, kinds):
-    """the model-level operations one API call amounts to"""
+def op_lines(op, kinds, scpts=None):
+    """the model-level operations one API call amounts to.  `scpts`: the scenario's own points settings so far
+    (`setup_points` writes ALL of them into model.points, not only the one just configured)."""
     if op[0] == "veceq":
         return ["seteq %d %s" % (op[1] + i, enc(inst(op[2], i))) for i in range(group_of(kinds, op[1])[1])]
     if op[0] == "scpoints":
-        return ["setpoints %d %s" % (op[1], tab_hex(op[2])), "reset"]
+        if scpts is None:
+            scpts = {}
+        scpts[op[1]] = op[2]
+        return ["setpoints %d %s" % (p, tab_hex(ti)) for p, ti in scpts.items()] + ["reset"]
     return [op_line(op)]
+
+
+def history_lines(ops, kinds):
+    """[(op, protocol lines)] of a whole history (scenario points settings accumulate)"""
+    scpts = {}
+    return [(o, op_lines(o, kinds, scpts)) for o in ops]
 
 
 EDITS = ("seteq", "setinit", "addeq", "arrset", "veceq", "setpoints", "scpoints")
@@ -502,9 +512,10 @@ def run_seq(chk, facts):
         r = Real(kinds)
         for ln in r.new_lines():
             req.append(ln); real.append("ok")
-        for op in ops:
+        hl = history_lines(ops, kinds)
+        for op, lns in hl:
             v = r.apply(op)
-            for ln in op_lines(op, kinds):
+            for ln in lns:
                 req.append(ln); real.append(v if op[0] == "eval" else "ok")
             kinds_hist[op[0]] = kinds_hist.get(op[0], 0) + 1
             if op[0] == "eval":
@@ -515,7 +526,7 @@ def run_seq(chk, facts):
         req.append("memo"); real.append(r.memo())
         edits_after_eval = any(o[0] == "eval" for o in ops) and any(
             o[0] in EDITS for i, o in enumerate(ops) if any(p[0] == "eval" for p in ops[:i]))
-        chk.case(("seq", tuple(kinds), tuple(l for o in ops for l in ([o[0]] + op_lines(o, kinds)))), nontrivial=edits_after_eval,
+        chk.case(("seq", tuple(kinds), tuple(l for o, lns in hl for l in ([o[0]] + lns))), nontrivial=edits_after_eval,
                  sample=[op_show(o) for o in ops] if len(chk.cov["samples"]) < 3 and len(ops) > 6 else None)
         if not settled(ops):
             # outside the statement: a raw `model.points[...] = ...` (plain dict) not yet followed by a cache reset.
@@ -1002,10 +1013,19 @@ def _run(chk, scratch):
         "CPython: a thread switch is possible between any two traced source lines of Model.memoize; dict.setdefault / dict reads are atomic "
         "(switches inside one line / inside C code are not modelled)",
         "DSL rendering of the generated expression shapes (left-nested sums of products; C01/C02 cover rendering in general)",
+        "graphical functions: a table is modelled by its interpolation function (uninterpreted in the theorems); the driver's `interpF` follows "
+        "Model._lookup / scipy interp1d (searchsorted, slope*(x-x_lo)+y_lo), validated bit for bit by the correspondence",
+        "arrayed elements are the model elements `name[i]` the DSL creates per member (setup_vector, v[i] = …, element-wise `v.equation = …`); "
+        "the harness expands one API call into the per-member model operations (the element-wise expansion itself is C10's subject)",
+        "XMILE-generated classes: the real transpiler generates the class of six small systems per run; its `memoize` runs under the same line-level "
+        "scheduler and is replayed by the same interleaving machine (Cfg bit from its own probe; Gen obligation holdsX / violatedX)",
     ]
     chk.assumptions = ["models are acyclic at equal times (generator keeps a rank); grid times exact in binary (dt 0.5, start 1.0) — C05 covers normalisation",
                        "stochastic terms are written after the element references of their equation (draw happens after the dependencies returned)",
-                       "edits are not concurrent with a run"]
+                       "edits are not concurrent with a run",
+                       "a raw write to `model.points` (a plain dict) is outside the statement's list of API edits: it takes effect with the next cache "
+                       "reset / edit (Lean `settled`); the scenario route (settings -> setup_points -> reset_cache) is settled by construction. "
+                       "Unsettled histories are still run differentially (model and code agree on the stale values), never reported"]
     cases, stale, sdiff, sreq, smodel, sreal, L = run_seq(chk, facts)
     amb, cdiff, creq, cmodel, cexp, cmeta = run_conc(chk, facts)
     xamb, xdiff, xreq, xmodel, xexp, xmeta = run_conc(chk, facts, scratch)
@@ -1014,7 +1034,13 @@ def _run(chk, scratch):
                        "histories on random models of 3..6 elements: every evaluation result and the memo contents after every evaluation are compared "
                        "with the Lean model, and every element at every grid point with a freshly built model; non-trivial = some edit follows an evaluation. "
                        "(b) six 2–3-thread systems: every schedule with <=1 pre-emption at line granularity in Model.memoize, all/sampled with 2 "
-                       "(thorough: all with 2, sampled with 3); a case = the order of memo accesses by thread; non-trivial = threads interleave")
+                       "(thorough: all with 2, sampled with 3); a case = the order of memo accesses by thread; non-trivial = threads interleave. "
+                       f"Wave 2: (a') all histories PTS_PREFIX + w, w in points-alphabet^{L} (10 operations: raw and scenario points edits, resets, reads, "
+                       "lookup equations); all 6x6 (old -> new) initial-value transitions over {float, same float, other float, constant, other constant, "
+                       "converter} x 3 read patterns x 2 tails; seeded histories on a model with two converter vectors, a flow vector and a stock vector "
+                       "(member assignment, member equation, member initial value, element-wise vector equations). (b') the same six system shapes "
+                       "transpiled from XMILE by the real compiler, forced schedules inside the generated memoize; a non-binary grid (0.3, 0.1) check "
+                       "that a RANDOM aux reached by four routes is computed once")
     chk.cov["traces_validated_against_impl"] = len(cases) + chk.cov.get("forced_schedule_runs", 0)
     # ---- decide
     chk.notes["seq_correspondence_first_diff"] = sdiff
